@@ -67,7 +67,9 @@ CLAIMED = {
         "Proved in Lean for every file list, key function and direction: the processing order is a permutation of the "
         "selection, ordered by the evaluated tuples (numbers numerically, strings by code point, tuples element-wise) "
         "ascending or descending, ties in gathering order; it agrees with Python's comparison wherever that is "
-        "defined; the depth sorter never puts an entry before a deeper one. Tied to the real TemplateFileSorter / "
+        "defined; the depth sorter never puts an entry before a deeper one; count_follows_sort (C08Count.lean, the sorter "
+        "composed with the C16 counter): of two files sharing a counter the one with the strictly smaller key is "
+        "processed first and receives the strictly smaller number, whatever else is interleaved. Tied to the real TemplateFileSorter / "
         "PathDepthSorter on hostile names and forced ties with keys computed independently, and to CLI runs in which "
         "%Count() reveals the processing order.",
         "Trusted: Lean kernel; sorted() is a stable sort; eval(repr(v)) == v for the key values (C14); hand-written "
@@ -131,7 +133,10 @@ CLAIMED = {
         "kind, then argument lists, tags, patterns), for every printing style (either quote mark, either spelling of the "
         "booleans, shorthand or not, blank after commas or not). Printable = texts non-empty, free of %/TAB/LF/CR, not "
         "ending in a backslash, no two adjacent; names are identifiers; strings do not end in a backslash; integers within "
-        "the digit limit; argument names used once. The theorem is about the model of the front end; that the model is "
+        "the digit limit; argument names used once. The converse clause (C10Cover.lean): lex_covers / accepted_all_recognised "
+        "— whenever the lexer accepts a text, its tokens written out again are a subsequence of the text containing every "
+        "non-blank character in order (only TAB/LF/CR between tokens and spaces inside argument lists lie outside "
+        "tokens), for every input string. The theorems are about the model of the front end; that the model is "
         "the real ANTLR front end is the correspondence: 30 000 "
         "generated trees per run are printed by the model's printer and by an independent Python printer, parsed by "
         "the real parser and by the model, and compared with the tree; accepted strings are re-lexed with a collecting "
